@@ -37,16 +37,16 @@ use futures_util::FutureExt;
 use p2panda_auth::group::{GroupAction, GroupCrdtState, GroupMember};
 use p2panda_auth::Access;
 use p2panda_core::cbor::encode_cbor;
-use p2panda_core::{Hash, SigningKey, VerifyingKey};
+use p2panda_core::{Hash, Header, SigningKey, VerifyingKey};
 use p2panda_encryption::crypto::x25519::SecretKey;
 use p2panda_encryption::key_bundle::{Lifetime, LongTermKeyBundle, PreKey};
 use p2panda_encryption::Rng;
-use p2panda_spaces::test_utils::{TestForge, TestOperation, TestPeer, TestSpacesStore};
-use p2panda_spaces::{AuthMessage, Forge, SpacesArgs, SpacesMessage};
+use p2panda_spaces::test_utils::{TestOperation, TestPeer, TestSpacesStore};
+use p2panda_spaces::{AuthMessage, SpacesArgs, SpacesMessage};
 use p2panda_store::groups::GroupsStore;
 use p2panda_store::key_registry::KeyRegistryStore;
 use p2panda_store::spaces::SpacesStore;
-use p2panda_store::{SqliteStore, Transaction};
+use p2panda_store::Transaction;
 use serde::Serialize;
 
 use crate::clock;
@@ -85,6 +85,38 @@ pub struct PanicInfo {
 impl PanicInfo {
     fn site(&self) -> String {
         format!("{}:{}", self.file, self.msg)
+    }
+}
+
+/// Canonical class of a panic: one key per defect site (independent of which message variant or
+/// which history reached it).  Unknown sites keep file and message.
+fn panic_class(p: &PanicInfo) -> String {
+    let f = p.file.as_str();
+    let m = p.msg.as_str();
+    let class = if f.ends_with("p2panda-spaces/src/manager.rs") && m == "not implemented" {
+        "space-update-unimplemented"
+    } else if (f.ends_with("p2panda-spaces/src/event.rs") || f.ends_with("p2panda-spaces/src/encryption/message.rs") || f.ends_with("p2panda-spaces/src/space.rs")) && m == "not implemented" {
+        "promote-demote-unimplemented"
+    } else if f.ends_with("p2panda-auth/src/group/crdt/mod.rs") && m == "group already present in states map" {
+        "auth-action-on-unknown-group"
+    } else if f.ends_with("p2panda-auth/src/group/resolver.rs") && (m == "all operations present in map" || m == "all processed operations exist" || m == "all state objects to exist") {
+        "auth-dependency-not-in-graph"
+    } else if f.ends_with("p2panda-encryption/src/key_registry.rs") && m.starts_with("assertion") {
+        "key-bundle-identity-key-changed"
+    } else {
+        return format!("panic/other/{}", p.site());
+    };
+    format!("panic/{class}")
+}
+
+fn kind_slug(kind: &str) -> &'static str {
+    match base_kind(kind).as_str() {
+        "KeyBundle" => "key-bundle",
+        "Auth" => "auth",
+        "SpaceMembership" => "space-membership",
+        "SpaceUpdate" => "space-update",
+        "Application" => "application",
+        _ => "other",
     }
 }
 
@@ -474,6 +506,7 @@ struct RunOut {
     dups: Vec<DupObs>,
     adv: Vec<AdvObs>,
     finals: Vec<Snap>,
+    #[allow(dead_code)]
     ops: Vec<TestOperation>,
     /// the real API refused an action the model allowed (scenario cut there; not a C39 matter)
     refused: Option<String>,
@@ -735,7 +768,7 @@ async fn run_once(cfg: RunCfg<'_>) -> RunOut {
         // totality probe at this prefix state
         if let (Some(adv), Some((_, from))) = (adv.as_mut(), cfg.totality) {
             if act_idx >= from {
-                if let Err(e) = adv.probe(&w, &out.msgs, &mut out.adv).await {
+                if let Err(e) = adv.probe(&w, &out.msgs, act_idx + 1 == cfg.acts.len(), &mut out.adv).await {
                     out.machinery = Some(e);
                     return out;
                 }
@@ -762,14 +795,13 @@ async fn run_once(cfg: RunCfg<'_>) -> RunOut {
 
 pub struct Menu {
     /// also sign adversarial messages with the keys of real peers (a misbehaving member)
-    member_authors: bool,
+    member_authors: usize,
     /// larger value menus
     wide: bool,
 }
 
 struct Adversary<'a> {
     menu: &'a Menu,
-    scratch: SqliteStore,
     eve_key: SigningKey,
     eve_secret: SecretKey,
     rng: Rng,
@@ -784,7 +816,6 @@ impl<'a> Adversary<'a> {
         let eve_secret = SecretKey::from_rng(&rng).expect("rng");
         Adversary {
             menu,
-            scratch: SqliteStore::temporary().await,
             eve_key,
             eve_secret,
             rng,
@@ -793,8 +824,23 @@ impl<'a> Adversary<'a> {
         }
     }
 
+    /// A correctly signed operation carrying `args`, exactly what `TestForge::forge` produces
+    /// (version 1, no body) except that it is not appended to the signer's real log: it is the first
+    /// entry (seq 0, no backlink) of a log of its own; the manager looks at neither field.
     async fn forge(&self, key: &SigningKey, args: SpacesArgs<()>) -> Result<TestOperation, String> {
-        TestForge::new(self.scratch.clone(), key.clone()).forge(args).await.map_err(|e| format!("adversary forge: {e}"))
+        let mut header = Header {
+            version: 1,
+            verifying_key: key.verifying_key(),
+            signature: None,
+            payload_size: 0,
+            payload_hash: None,
+            seq_num: 0,
+            backlink: None,
+            extensions: args,
+        };
+        header.sign(key);
+        let hash = header.hash();
+        Ok(TestOperation { hash, header, body: None })
     }
 
     fn bundle(&self, identity: &SecretKey, prekey_signer: &SecretKey, lifetime: Lifetime) -> Option<LongTermKeyBundle> {
@@ -805,7 +851,7 @@ impl<'a> Adversary<'a> {
     }
 
     /// Hand the whole menu to every receiver at the current state.
-    async fn probe(&mut self, w: &World, msgs: &[MsgInfo], out: &mut Vec<AdvObs>) -> Result<(), String> {
+    async fn probe(&mut self, w: &World, msgs: &[MsgInfo], last: bool, out: &mut Vec<AdvObs>) -> Result<(), String> {
         let n = w.peers.len();
         let prefix_len = msgs.len();
         let space_id = w.space_id;
@@ -846,8 +892,8 @@ impl<'a> Adversary<'a> {
 
         // ---- authors -----------------------------------------------------------------------------
         let mut authors: Vec<(String, SigningKey, Option<usize>)> = vec![("Eve".into(), self.eve_key.clone(), None)];
-        if self.menu.member_authors {
-            for p in 0..n.min(2) {
+        if self.menu.member_authors > 0 {
+            for p in 0..n.min(self.menu.member_authors) {
                 authors.push((NAMES[p].to_string(), w.peers[p].credentials.signing_key(), Some(p)));
             }
         }
@@ -1055,6 +1101,43 @@ impl<'a> Adversary<'a> {
                 }
             }
         }
+
+        // Two messages by an outsider: anybody may create a group of their own, in which they hold
+        // manage rights; the second message then is an authorised Promote.  This persists Eve's group
+        // at the receivers, so it is only done at the very end of a run.
+        if last {
+            let own_group = SigningKey::from_bytes(&[0x78; 32]).verifying_key();
+            for r in 0..n {
+                let create = self
+                    .forge(&self.eve_key, SpacesArgs::Auth {
+                        group_id: own_group,
+                        group_action: GroupAction::Create { initial_members: vec![(GroupMember::Individual(eve_id), Access::manage()), (GroupMember::Individual(b_id), Access::write())] },
+                        auth_dependencies: auth_head.clone(),
+                    })
+                    .await?;
+                w.peers[r].persist_operation(&create).await.map_err(|e| format!("persist adversarial op: {e}"))?;
+                let first = summarise(guarded(w.peers[r].manager.process_persisted(&create)).await);
+                out.push(AdvObs { prefix_len, receiver: r, label: "two messages by an outsider, 1st: Auth Create[Eve:manage,B:write] of Eve's own group deps=heads [signed by Eve]".into(), variant: "Auth", res: first });
+                for (name, action) in [
+                    ("Promote(B,manage)", GroupAction::Promote { member: GroupMember::Individual(b_id), access: Access::manage() }),
+                    ("Demote(B,pull)", GroupAction::Demote { member: GroupMember::Individual(b_id), access: Access::pull() }),
+                ] {
+                    let op = self.forge(&self.eve_key, SpacesArgs::Auth { group_id: own_group, group_action: action, auth_dependencies: vec![create.hash] }).await?;
+                    let res = match guarded(w.peers[r].manager.process(&op)).await {
+                        Ok(Ok((_, _, events))) => summarise::<_, String>(Ok(Ok(events))),
+                        Ok(Err(e)) => Proc::Error(e.to_string()),
+                        Err(p) => Proc::Panic(p),
+                    };
+                    out.push(AdvObs {
+                        prefix_len,
+                        receiver: r,
+                        label: format!("two messages by an outsider: Eve first creates a group of her own (Auth Create[Eve:manage,B:write], accepted), then sends Auth {name} for that group deps=[her create] [both signed by Eve]"),
+                        variant: "Auth",
+                        res,
+                    });
+                }
+            }
+        }
         Ok(())
     }
 }
@@ -1089,6 +1172,7 @@ struct ExecOut {
     machinery: Option<String>,
     registry_growth: u64,
     dup_errors: BTreeSet<String>,
+    honest_panics: BTreeSet<String>,
     final_states: Vec<u64>,
 }
 
@@ -1168,10 +1252,12 @@ async fn execute(ch: &Chooser, params: &Params) -> ExecOut {
                     ex.outcomes.insert(format!("first/{}/{}", run.msgs[i].kind, r.class()));
                 }
                 if let Some(Proc::Panic(pi)) = r {
+                    ex.honest_panics.insert(format!("{} processing #{i} ({}) of [{}] ({boot}): {}", NAMES[p], run.msgs[i].kind, history_upto(&run.acts, &run.msgs, i), pi.site()));
                     ex.findings.push(Finding {
-                        key: format!("panic/{}/{}", base_kind(&run.msgs[i].kind), pi.site()),
-                        weight: (i, String::new()),
-                        what: format!("honest delivery panicked: {} processing message #{i} ({}) of history [{}] ({boot}): '{}' at {}:{}", NAMES[p], run.msgs[i].kind, history_upto(&run.acts, &run.msgs, i), pi.msg, pi.file, pi.line),
+                        key: panic_class(pi),
+                        // an honest history outranks any adversarial input as the reproduction to show
+                        weight: (0, format!("{:03}", run.acts.len())),
+                        what: format!("no adversary needed: honest delivery panicked: {} processing message #{i} ({}) of history [{}] ({boot}): '{}' at {}:{}", NAMES[p], run.msgs[i].kind, history_upto(&run.acts, &run.msgs, i), pi.msg, pi.file, pi.line),
                         replay: replay.clone(),
                     });
                 }
@@ -1209,8 +1295,8 @@ async fn execute(ch: &Chooser, params: &Params) -> ExecOut {
             if let Proc::Panic(p) = &a.res {
                 let hist = if a.prefix_len == 0 { "(nothing yet)".to_string() } else { history_upto(&t.acts, &t.msgs, a.prefix_len - 1) };
                 ex.findings.push(Finding {
-                    key: format!("panic/{}/{}", a.variant, p.site()),
-                    weight: (a.prefix_len, a.label.clone()),
+                    key: panic_class(p),
+                    weight: (a.prefix_len, format!("{}{}", if a.label.contains("by Eve") || a.label.contains("author Eve") { 0 } else { 1 }, a.label)),
                     what: format!(
                         "Manager::process panicked instead of returning Ok/Err: receiver {} after history [{}] ({boot}) is handed `{}` -> panic '{}' at {}:{}",
                         NAMES[a.receiver], hist, a.label, p.msg, p.file, p.line
@@ -1259,13 +1345,12 @@ async fn execute(ch: &Chooser, params: &Params) -> ExecOut {
                 "{} re-processes message #{} ({}{}) after position #{} of history [{}] ({boot})",
                 NAMES[o.peer], o.i, kind, if o.own { ", its own" } else { "" }, o.j, hist
             );
-            let bk = base_kind(&kind);
             let weight = (o.j, format!("{:02}{:02}{}", o.j - o.i, o.peer, kind));
             match &o.res {
                 Proc::Panic(p) => {
                     fired.insert(o.peer);
                     ex.findings.push(Finding {
-                        key: format!("panic/{}/{}", bk, p.site()),
+                        key: panic_class(p),
                         weight: weight.clone(),
                         what: format!("duplicate delivery panicked: {ctx}: '{}' at {}:{}", p.msg, p.file, p.line),
                         replay: replay.clone(),
@@ -1274,7 +1359,7 @@ async fn execute(ch: &Chooser, params: &Params) -> ExecOut {
                 Proc::Events(kinds, full) if !kinds.is_empty() => {
                     fired.insert(o.peer);
                     ex.findings.push(Finding {
-                        key: format!("idempotency/{}/{}/events-re-emitted:{}", bk, who, kinds.join("+")),
+                        key: format!("idempotency/{}/events-re-emitted", kind_slug(&kind)),
                         weight: weight.clone(),
                         what: format!("second processing emitted events again: {ctx} -> Ok({})", full.chars().take(260).collect::<String>()),
                         replay: replay.clone(),
@@ -1298,7 +1383,7 @@ async fn execute(ch: &Chooser, params: &Params) -> ExecOut {
                     parts.push("members".into());
                 }
                 ex.findings.push(Finding {
-                    key: format!("idempotency/{}/{}/state-changed:{}", bk, who, parts.join("+")),
+                    key: format!("idempotency/{}/state-changed", kind_slug(&kind)),
                     weight: weight.clone(),
                     what: format!("second processing changed persisted state: {ctx}; it returned {}; changed fields: {}", o.res.class(), parts.join(" ")),
                     replay: replay.clone(),
@@ -1359,18 +1444,18 @@ pub fn run(mut rep: Report) -> i32 {
     clock::freeze(FROZEN_NOW);
     let thorough = rep.thorough();
     let params = if thorough {
-        Params { peer_choices: vec![2, 3], depth: 3, accs: vec![Acc::Write, Acc::Pull, Acc::Manage], kb_actors: vec![0, 1, 2], menu: Menu { member_authors: true, wide: true } }
+        Params { peer_choices: vec![2, 3], depth: 3, accs: vec![Acc::Write, Acc::Pull, Acc::Manage], kb_actors: vec![0, 1, 2], menu: Menu { member_authors: 2, wide: true } }
     } else {
-        Params { peer_choices: vec![2], depth: 2, accs: vec![Acc::Write, Acc::Pull, Acc::Manage], kb_actors: vec![1], menu: Menu { member_authors: true, wide: false } }
+        Params { peer_choices: vec![2], depth: 2, accs: vec![Acc::Write, Acc::Pull], kb_actors: vec![1], menu: Menu { member_authors: 1, wide: false } }
     };
     rep.rule = format!(
-        "scenario = peers in {:?} x bootstrap(out-of-band | key-bundle messages) x every create_space variant x every model-valid action sequence of length {} over add/remove/publish/key-bundle; per scenario: totality menu at every prefix state for every receiver, two baselines, and one run per duplicate distance (every peer re-processes every message once at every later position); non-trivial = scenario with a membership change or application message after creation",
-        params.peer_choices, params.depth
+        "scenario = peers in {:?} x bootstrap(out-of-band | key-bundle messages) x every create_space variant over access {:?} x every model-valid action sequence of length {} over add/remove/publish/key-bundle; every prefix is probed once (by the scenario whose later choices are all 0): totality menu for every receiver after every owned action, and for every owned message position j one run in which every peer re-processes every message i<=j; non-trivial = owning scenario with a membership change or an application message after creation",
+        params.peer_choices, params.accs, params.depth
     );
     let cfg = DfsCfg {
         max_dev: usize::MAX,
         max_execs: u64::MAX,
-        wall: Duration::from_secs(if thorough { 540 } else { 33 }),
+        wall: Duration::from_secs(if thorough { 540 } else { 36 }),
         threads: rep.args.threads.max(1),
     };
 
@@ -1386,6 +1471,7 @@ pub fn run(mut rep: Report) -> i32 {
         machinery: Vec<String>,
         registry_growth: u64,
         dup_errors: BTreeSet<String>,
+        honest_panics: BTreeSet<String>,
         samples: Vec<serde_json::Value>,
         states: BTreeSet<u64>,
         max_msgs: usize,
@@ -1402,6 +1488,7 @@ pub fn run(mut rep: Report) -> i32 {
         machinery: vec![],
         registry_growth: 0,
         dup_errors: BTreeSet::new(),
+        honest_panics: BTreeSet::new(),
         samples: vec![],
         states: BTreeSet::new(),
         max_msgs: 0,
@@ -1445,6 +1532,7 @@ pub fn run(mut rep: Report) -> i32 {
             agg.adv_evals += ex.adv_evals;
             agg.registry_growth += ex.registry_growth;
             agg.dup_errors.extend(ex.dup_errors);
+            agg.honest_panics.extend(ex.honest_panics);
             agg.max_msgs = agg.max_msgs.max(ex.n_msgs);
             for s in ex.final_states {
                 agg.states.insert(s);
@@ -1481,6 +1569,7 @@ pub fn run(mut rep: Report) -> i32 {
     rep.set("message_kinds_duplicated", json!(agg.kinds));
     rep.set("outcome_classes", json!(agg.outcomes));
     rep.set("duplicate_returned_error", json!(agg.dup_errors));
+    rep.set("panics_in_honest_histories", json!(agg.honest_panics.iter().take(12).collect::<Vec<_>>()));
     rep.set("key_registry_grew_on_duplicate", json!(agg.registry_growth));
     rep.set("actions_refused_by_real_api", json!(agg.refused));
     rep.assume(&format!("wall clock frozen at {FROZEN_NOW} through the clock_gettime seam (key-bundle lifetimes and secret timestamps do not move between the compared runs)"));
